@@ -275,3 +275,50 @@ def param_enum_switches(body, adt_re, param=None):
 
 
 NEXT_TRANSPARENT = re.compile(TRANSPARENT.pattern[:-2] + r"|.*Iterator>::next|(std|core)::iter::Iterator::next|.*::iter|.*::into_iter|.*::iter_mut|(std|core)::iter::Iterator::(enumerate|rev|cloned|copied|peekable))$")
+
+
+FS_MUT = re.compile(
+    r"^(std::fs|tokio::fs|fs2|memmap2)::.*(File::create|File::create_new|File::set_len|File::options|OpenOptions::(write|append|truncate|create|create_new)|"
+    r"fs::write|fs::rename|fs::remove_file|fs::remove_dir|fs::remove_dir_all|fs::create_dir|fs::create_dir_all|fs::copy|fs::hard_link|fs::set_permissions|"
+    r"DirBuilder::create|MmapMut|map_mut|map_copy)\b")
+
+
+def fs_mut_leaves(cg, node):
+    return sorted(t for t in cg.edges.get(node, ()) if t not in cg.nodes and FS_MUT.search(norm_path(t)))
+
+
+def held_guard_violations(body, lock_call, uses, guard_ty=r"MutexGuard|RwLock(Read|Write)Guard"):
+    """K5: the guard produced by (awaited) lock_call must be live at every block in `uses`:
+    lock completion dominates the use, and no non-cleanup Drop/StorageDead… of the guard local lies on a path lock→use."""
+    bad = []
+    de = done_edge(body, lock_call)
+    place, aw = body.result_value_place(lock_call)
+    start = [aw[0].dest[0]] if aw is not None else place
+    flow = body.flow_forward(start)
+    guard_locals = {l for l, _ in flow if re.search(guard_ty, body.local_ty(l)) and not body.local_ty(l).startswith("&")}
+    if not guard_locals:
+        raise AnchorMissing("guard local of %s in %s" % (lock_call.name, body.key))
+    # a local whose value is moved on into another guard local is dead afterwards (its Drop is a no-op in mir_built)
+    moved_on = set()
+    for blk in body.blocks:
+        for st in blk["s"]:
+            if "a" in st and st["v"]["r"] == "use" and "m" in st["v"]["o"]:
+                src = st["v"]["o"]["m"]
+                if src[0] in guard_locals and st["a"][0] in guard_locals and st["a"][0] != src[0]:
+                    moved_on.add(src[0])
+    guard_locals -= moved_on
+    named = {l for l in guard_locals if body.local_name(l)}
+    if not named:
+        bad.append(("guard-temporary", "the lock guard is a temporary dropped at the end of the statement", None))
+    drops = [i for i in body.live_blocks() if not body.blocks[i].get("cu") and body.blocks[i]["t"]["t"] == "drop" and body.blocks[i]["t"]["p"][0] in (named or guard_locals)
+             and len(body.blocks[i]["t"]["p"]) == 1]
+    expl = [c.bb for c in body.find_calls(r"mem::drop$") if c.args and (c.args[0].get("m") or [None])[0] in guard_locals]
+    for u in uses:
+        if not body.dominates_edge(de, u):
+            bad.append(("use-before-lock", "a protected operation is reachable without the lock having been acquired", witness_path(body, body.reach(0, cut_edges=[de]), u)))
+        for d in drops + expl:
+            if body.can_reach(de[1], d) and body.can_reach(d, u) and d != u:
+                # a drop that can reach the use: guard released in between (only if the drop itself is after acquisition)
+                bad.append(("guard-dropped-before-use", "the lock guard can be dropped before a protected operation", None))
+                break
+    return bad
